@@ -157,8 +157,16 @@ func checkC06(c *Ctx) {
 		k := 2 + c.rng.intn(4)
 		var scs []*scenario
 		need := 0
+		var reuse []*party
 		for j := 0; j < k; j++ {
 			sc := c.c01Scenario(hix*7 + j + 3000)
+			// every other history encrypts all its files to the SAME recipient objects
+			if hix%2 == 1 {
+				if reuse == nil {
+					reuse = sc.parties
+				}
+				sc.parties = reuse
+			}
 			sc.armor = false
 			sc.plain = c.rng.bytes(c.rng.intn(30))
 			scs = append(scs, sc)
